@@ -387,7 +387,8 @@ class Canon:
             y, x, r = v
             ys, xs = self.rat_smt(y), self.rat_smt(x)
             lines.append("(assert (=> (>= %s 0) (>= %s 0)))" % (ys, al))
-            lines.append("(assert (=> (<= %s 0) (<= %s 0)))" % (ys, al))
+            lines.append("(assert (=> (< %s 0) (< %s 0)))" % (ys, al))
+            lines.append("(assert (=> (and (= %s 0) (< %s 0)) (or (and (<= %s %s) (<= %s %s)) (and (<= (- %s) %s) (<= %s (- %s))))))" % (ys, xs, PI, al, al, PIH, PIH, al, al, PI))   # atan2(+-0, x<0) = +-pi
             lines.append("(assert (=> (>= %s 0) (and (<= (- %s) %s) (<= %s %s))))" % (xs, HPIH, al, al, HPIH))
             lines.append("(assert (=> (and (= %s 0) (> %s 0)) (= %s 0)))" % (ys, xs, al))
             lines.append("(assert (=> (not (= %s 0)) (not (= %s 0))))" % (ys, al))
@@ -397,7 +398,7 @@ class Canon:
             lines.append("(assert (=> (and (>= %s 0) (> %s 0)) (<= (* %s %s) %s)))" % (ys, xs, al, xs, ys))
             lines.append("(assert (=> (and (<= %s 0) (>= %s 0)) (<= (* %s %s) %s)))" % (ys, xs, al, rs, ys))
             lines.append("(assert (=> (and (<= %s 0) (> %s 0)) (>= (* %s %s) %s)))" % (ys, xs, al, xs, ys))
-            self.axioms.add('atan2 range: |a|<=pi, sign(a)=sign(y), |a|<=pi/2 when x>=0 (rational upper bound 3.1415926536 > pi); sin a <= a <= tan a on [0,pi/2) and mirrored')
+            self.axioms.add('atan2 range: |a|<=pi, sign(a)=sign(y) for y!=0, |a|=pi for y=0 and x<0, |a|<=pi/2 when x>=0 (rational upper bound 3.1415926536 > pi); sin a <= a <= tan a on [0,pi/2) and mirrored')
         return lines
 
     def steps(self, ids=None):
